@@ -11,7 +11,9 @@ RULE = ("random MJX-supported models (generator of vf/mjxrepo.py: smooth / const
         "the wheel's mj_stateSize/mj_getState/mj_setState for all 14 single bits, the 4 named composites and random "
         "signatures of the 2^14; (b) make_data(MjModel) and make_data(mjx.Model) against put_data(MjModel, fresh MjData) leaf "
         "by leaf (shape, dtype, value); (c) get_data(put_data(d)) against d after mj_forward / mj_step at a random state "
-        "(copied fields exact, contacts and constraint rows as sets, recomputed factorisation by tolerance); (d) jit(f) vs "
+        "(copied fields exact, contacts and constraint rows as sets, recomputed factorisation by tolerance), including states with "
+        "equalities that are inactive in the XML or deactivated at run time next to friction-loss / limit / contact rows (MuJoCo's "
+        "compact constraint-row offsets differ from MJX's static ones); (d) jit(f) vs "
         "un-jitted f for f in {kinematics+com_pos+crb, forward, step}; (e) jit(vmap(f)) over batches of 1, 2, 7 states vs "
         "per-sample jit(f). distinct = (component, profile, integrator, signature class | batch size | model feature hash); "
         "non-trivial = model accepted by put_model with nv>0")
@@ -19,7 +21,10 @@ ASSUMPTIONS = [
     "the wheel's (3.13.0) mj_getState/mj_setState/mj_stateSize are the reference for the state API: mjtState is identical "
     "in the tree's include/mujoco/mjtype.h (14 bits, same order) - checked at start, inconclusive otherwise",
     "jit vs eager and vmap vs per-sample are compared with relative tolerance 1e-9 of max(1,|field|): XLA may fuse / "
-    "reassociate floating-point operations differently (x64); integer leaves must be equal",
+    "reassociate floating-point operations differently (x64); integer leaves must be equal; for models WITH constraint rows the "
+    "leaves downstream of the iterative constraint solver (qacc, qfrc_constraint, efc_force, cacc, cfrc_int/ext, sensordata, "
+    "qacc_warmstart, and the next state of step) are compared with 1e-6: the same CG/Newton iteration with differently fused "
+    "arithmetic agrees only to the conditioning of the iteration (witness 2e-8 on exactly these leaves, < 1e-12 on all others)",
     "get_data: qLD/qLDiagInv are recomputed by mj_factorM (documented in io.py: 'recalculate qLD and qLDiagInv as MJX and "
     "MuJoCo have different representations'), compared with 1e-9; arena-only fields that MJX's Data does not carry are not "
     "compared; efc rows with all-zero Jacobian are dropped by get_data (io.py: nefc counts rows with any(efc_J != 0))",
@@ -261,7 +266,16 @@ def _fn(R, name):
     return _JIT[name]
 
 
-def _cmp_trees(R, P, a, b, tol, sig, base, **kw):
+# leaves downstream of solver.solve (CG / Newton iterated to tolerance 1e-12): two executions of the SAME algorithm whose
+# floating-point operations are fused / reassociated differently agree only to the conditioning of the iteration, not to 1e-9
+# (witness: CG, refsafe disabled, weld + tendon equality: exactly these leaves differ by 3e-9..2e-8, every other leaf < 1e-12)
+SOLVER_LEAVES = (".qacc", ".qfrc_constraint", ".sensordata", ".qacc_warmstart", "._impl.efc_force", "._impl.cacc",
+                 "._impl.cfrc_int", "._impl.cfrc_ext")
+STEP_LEAVES = (".qpos", ".qvel", ".act")
+TOL_SOLVER_LEAVES = 1e-6
+
+
+def _cmp_trees(R, P, a, b, tol, sig, base, solver_fn=None, **kw):
     la, lb = _leaves(R, a), _leaves(R, b)
     if set(la) != set(lb):
         _viol(P, sig + ":pytree-structure", base, **kw)
@@ -278,8 +292,13 @@ def _cmp_trees(R, P, a, b, tol, sig, base, **kw):
                 return
             continue
         e = _rel(x, y)
-        worst = max(worst, e if np.isfinite(e) else 1e300)
-        if e > tol:
+        t = tol
+        if solver_fn is not None and (k in SOLVER_LEAVES or (solver_fn == "step" and k in STEP_LEAVES)):
+            t = max(tol, TOL_SOLVER_LEAVES)
+            P.note_max("relerr_solver_leaves_" + sig.split(":")[0], e if np.isfinite(e) else 1e300)
+        else:
+            worst = max(worst, e if np.isfinite(e) else 1e300)
+        if e > t:
             _viol(P, sig + ":value", base, leaf=k, relerr=e, a=x.tolist(), b=y.tolist(), **kw)
             return
     P.note_max("relerr_" + sig.split(":")[0], worst)
@@ -323,13 +342,31 @@ def check_model(R, xml, tags, case, P):
         except Exception as e:
             _viol(P, "make_data-or-put_data-raises:%s" % type(e).__name__, base, error=repr(e)[:300])
     if "roundtrip" in case["parts"]:
-        for label in ("forward", "step"):
+        variants = [("forward", None), ("step", None)]
+        if m.neq:
+            # run-time deactivated equality: MuJoCo packs the constraint rows (d.ne < ne) while MJX keeps static offsets, so
+            # put_data has to translate the friction / limit blocks between the two layouts
+            variants.append(("forward+eqoff", int(rng.integers(m.neq))))
+        for label, eqoff in variants:
             d1 = mj.MjData(m)
             mj.mj_copyData(d1, m, d)
-            (mj.mj_forward if label == "forward" else mj.mj_step)(m, d1)
+            if eqoff is not None:
+                d1.eq_active[eqoff] = 0
+            (mj.mj_step if label == "step" else mj.mj_forward)(m, d1)
             if not np.all(np.isfinite(d1.qacc)):
                 P.count("skipped_c_engine_unstable")
                 continue
+            ne_static = int(sum({int(mj.mjtEq.mjEQ_CONNECT): 3, int(mj.mjtEq.mjEQ_WELD): 6}.get(int(t), 1) for t in m.eq_type))
+            if m.neq and not int(m.opt.disableflags) & int(mj.mjtDisableBit.mjDSBL_EQUALITY) and int(d1.ne) < ne_static:
+                P.count("roundtrip_states_with_inactive_equality")
+                if int(d1.nf) or int(d1.nl):
+                    P.count("roundtrip_states_with_inactive_equality_and_friction_or_limit_rows")
+            if int(d1.nf):
+                P.count("roundtrip_states_with_frictionloss_rows")
+            if int(d1.nl):
+                P.count("roundtrip_states_with_limit_rows")
+            if int(d1.ncon):
+                P.count("roundtrip_states_with_contacts")
             check_roundtrip(R, m, d1, P, base, label)
     integ = [t for t in tags if t.startswith("int:")][0]
     if "jit" in case["parts"] or "vmap" in case["parts"]:
@@ -350,7 +387,8 @@ def check_model(R, xml, tags, case, P):
                 continue
             if "jit" in case["parts"]:
                 eager = raw(mx, dxs[0])
-                _cmp_trees(R, P, per[0], eager, 1e-9, "jit-differs-from-eager[%s]" % fname, base, fn=fname)
+                _cmp_trees(R, P, per[0], eager, 1e-9, "jit-differs-from-eager[%s]" % fname, base, fn=fname,
+                           solver_fn=fname if (fname != "kin" and int(per[0]._impl.nefc) > 0) else None)
                 P.case("jit|%s|%s|%s" % (fname, prof, integ), nontrivial=True)
             if "vmap" in case["parts"]:
                 B = case["batch"]
@@ -359,7 +397,8 @@ def check_model(R, xml, tags, case, P):
                 for i in range(B):
                     oi = jax.tree.map(lambda x, i=i: x[i], out)
                     _cmp_trees(R, P, oi, per[i], 1e-9, "vmap-differs-from-per-sample[%s]" % fname, base, fn=fname,
-                               batch=B, index=i)
+                               batch=B, index=i,
+                               solver_fn=fname if (fname != "kin" and int(per[i]._impl.nefc) > 0) else None)
                 P.case("vmap|%s|B%d|%s|%s" % (fname, B, prof, integ), nontrivial=True)
                 P.count("vmap_samples_compared", B)
 
@@ -373,7 +412,7 @@ def worker(case):
     else:
         rng = np.random.Generator(np.random.PCG64(case["key"]))
         xml, tags = mjxrepo.gen_model(rng, case["profile"], small=True, mocap=case.get("mocap"), userdata=3,
-                                      safe=True)
+                                      safe=True, want=case.get("want", ()))
     check_model(R, xml, tags, case, P)
     return P.result()
 
@@ -382,7 +421,14 @@ def _cases(ctx):
     cases = []
     n_io = ctx.pick(16, 240)
     for i in range(n_io):
-        cases.append({"key": int(core.stable_hash("C44io", ctx.seed, i)), "profile": ["constrained", "contact", "smooth"][i % 3],
+        prof = ["constrained", "contact", "smooth"][i % 3]
+        eqk = ["eq:connect", "eq:weld", "eq:joint", "eq:tendon"]
+        # constrained / contact models: every second one is forced to carry an inactive equality next to friction-loss and limit
+        # rows (compact vs static constraint-row offsets), the others a clamp stack / tendon rows
+        want = [] if prof == "smooth" else (
+            ["eq:inactive", eqk[(i // 3) % 4], eqk[(i // 3 + 1) % 4], "frictionloss", "limit"] if (i // 3) % 2 == 0 else
+            [eqk[(i // 3) % 4], "tendon:limit", "tendon:frictionloss", "clampstack"])
+        cases.append({"key": int(core.stable_hash("C44io", ctx.seed, i)), "profile": prof, "want": want,
                       "parts": ["state", "make", "roundtrip"], "nrandom": ctx.pick(12, 40), "mocap": 1 if i % 2 == 0 else None,
                       "batch": 0, "fns": []})
     n_x = ctx.pick(8, 60)
@@ -415,6 +461,10 @@ def run(ctx):
             continue
         ctx.merge(r)
     ctx.min_nontrivial = ctx.pick(30, 60)
+    for need in ("roundtrip_states_with_inactive_equality_and_friction_or_limit_rows", "roundtrip_states_with_frictionloss_rows",
+                 "roundtrip_states_with_limit_rows", "roundtrip_states_with_contacts"):
+        if not ctx.counters.get(need):
+            ctx.inconclusive("workload never produced: %s" % need)
     if fails > len(cases) // 4:
         ctx.inconclusive("too many worker failures (%d of %d)" % (fails, len(cases)))
 
